@@ -443,9 +443,21 @@ def check_io(ctx, Grid, case, tmpd):
         ctx.count("io.dict")
         compare_meta(ctx, prefix, case, g2, nr, nc, csz, xll, yll, dt, nd, ndkind)
     elif op == "clone":
-        prefix = "grid.clone"
+        how = case.get("how", "plain")
+        if how == "catchment" and case["dtype"] != "int64":
+            return          # a Catchment holds an int64 copy: identical cells only for int64 grids
+        prefix = "grid.clone" if how == "plain" else "grid.clone[%s]" % how
+
+        def do_clone(gr):
+            if how == "plain":
+                return gr.clone()
+            if how == "same-dtype":
+                return gr.clone(gr.dtype)
+            # the copy a Catchment takes of its flow direction grid (clone to int64)
+            from hydrodiy.gis.grid import Catchment
+            return Catchment("c", gr).flowdir
         try:
-            g2 = g.clone()
+            g2 = do_clone(g)
         except Exception as e:
             ctx.case(True)
             ctx.violation(prefix + ":raised:%s" % type(e).__name__, case, "raised %r" % (e,))
@@ -468,7 +480,7 @@ def check_io(ctx, Grid, case, tmpd):
             if not (float(g.xllcorner) == float(xll)) or not same_scalar(g.nodata, nd):
                 ctx.violation(prefix + ":not-independent:clone->original:meta", case,
                               "changing the clone's xllcorner/nodata changed the original")
-            g3 = g.clone()
+            g3 = do_clone(g)
             g.data[...] = other
             if np.ascontiguousarray(g3.data).tobytes() != cells.tobytes():
                 ctx.violation(prefix + ":not-independent:original->clone", case,
@@ -479,7 +491,7 @@ def check_io(ctx, Grid, case, tmpd):
 
 def io_ops():
     ops = [{"op": "load", "source": s, "route": r} for s in SOURCES for r in ROUTES]
-    ops += [{"op": "dict"}, {"op": "clone"}]
+    ops += [{"op": "dict"}, {"op": "clone"}, {"op": "clone", "how": "same-dtype"}, {"op": "clone", "how": "catchment"}]
     return ops
 
 
